@@ -1,6 +1,7 @@
 package main
 
 import (
+	"strconv"
 	"encoding/hex"
 	"fmt"
 	"github.com/polydawn/refmt"
@@ -117,6 +118,12 @@ func genUnmarshal(tier string, seed uint64) {
 					continue
 				}
 				emit("unmarshal %d %d %s", aid, tid(t), strings.Join(toks, ","))
+				if aid == 3 && t == reflect.TypeOf(Emb{}) {
+					// the key this mapping declares as IGNORED, with values of every shape, at every entry position
+					for _, it := range insertEntries(toks, "s6c6567616379", ignoredValues) {
+						emit("unmarshal %d %d %s", aid, tid(t), strings.Join(it, ","))
+					}
+				}
 				for m := 0; m < 4; m++ {
 					mt := mutateToks(r, toks)
 					if len(mt) > 0 && len(mt) <= 120 {
@@ -126,6 +133,41 @@ func genUnmarshal(tier string, seed uint64) {
 			}
 		}
 	}
+}
+
+var ignoredValues = [][]string{{"0"}, {"i7"}, {"s6162"}, {"[0", "]"}, {"{0", "}"}, {"[2", "i1", "[-1", "s78", "]", "]"},
+	{"{-1", "s6b", "{1", "s6a", "[0", "]", "}", "s6c", "b1", "}"}, {"t9.i3"}, {"x0102"}}
+
+// insertEntries: the outermost map of toks with the entry key=value inserted at every entry boundary, every value in turn
+// (the declared length follows)
+func insertEntries(toks []string, key string, values [][]string) [][]string {
+	if len(toks) < 2 || !strings.HasPrefix(toks[0], "{") {
+		return nil
+	}
+	bounds := []int{1}
+	for i := 1; i < len(toks)-1; {
+		i = subtreeEnd(toks, i+1)
+		bounds = append(bounds, i)
+	}
+	open := toks[0]
+	if n, err := strconv.Atoi(open[1:]); err == nil && n >= 0 {
+		open = fmt.Sprintf("{%d", n+1)
+	}
+	var out [][]string
+	for bi, b := range bounds {
+		if b > len(toks)-1 {
+			continue
+		}
+		v := values[bi%len(values)]
+		for k := 0; k < 2; k++ {
+			x := append([]string{open}, toks[1:b]...)
+			x = append(append(x, key), v...)
+			x = append(x, toks[b:]...)
+			out = append(out, x)
+			v = values[(bi+3+len(toks))%len(values)]
+		}
+	}
+	return out
 }
 
 // end of the subtree starting at toks[i] (exclusive)
@@ -255,6 +297,31 @@ func genRemarshal(tier string, seed uint64) {
 			}
 		}
 	}
+	taggedNeighbours(r, func(aid int, t reflect.Type, vd string) { emit("remarshal cbor %d %d %s", aid, tid(t), vd) })
+}
+
+// several tagged struct values side by side in one untyped container (one value machine serves them all): sparse after
+// full, maps after maps, in every order
+func taggedNeighbours(r *rng, emitOne func(aid int, t reflect.Type, vd string)) {
+	bt, tm := reflect.TypeOf(Blob{}), reflect.TypeOf(TwoMaps{})
+	sl, mp := reflect.TypeOf([]interface{}{}), reflect.TypeOf(map[string]interface{}{})
+	o := genOpts{depth: 2, roundtrip: true, tagged: true, cbor: true}
+	for _, aid := range []int{2, 3} {
+		for i := 0; i < 40; i++ {
+			var parts, mparts []string
+			for j := 0; j < 2+r.intn(3); j++ {
+				ct := []reflect.Type{bt, bt, tm}[r.intn(3)]
+				v := genValue(r, ct, o)
+				if j > 0 && r.chance(1, 3) && ct == bt {
+					v = "S(n,n,s)" // everything omitted or nil after a fuller neighbour
+				}
+				parts = append(parts, fmt.Sprintf("I%d:%s", tid(ct), v))
+				mparts = append(mparts, fmt.Sprintf("s%02x=I%d:%s", 0x61+j, tid(ct), v))
+			}
+			emitOne(aid, sl, "["+strings.Join(parts, ",")+"]")
+			emitOne(aid, mp, "M{"+strings.Join(mparts, ",")+"}")
+		}
+	}
 }
 
 func genClone(tier string, seed uint64) {
@@ -318,6 +385,31 @@ func genPump(tier string, seed uint64) {
 			if r.chance(1, 4) {
 				emit("pump cbor cbor nil - %s", hexOrDash(item))
 			}
+			if r.chance(1, 6) {
+				ind := [][2]string{{"0a", "09"}, {"0a", "20202020"}, {"0d0a", "2020"}, {"0a", strings.Repeat("20", 33)}, {"-", "2020"}, {"0a", "-"}}[r.intn(6)]
+				emit("pump cbor json %s %s %s", ind[0], ind[1], hexOrDash(item))
+			}
+		}
+	}
+	// line / indent options whose separator (comma + line + depth * indent) crosses the sizes of the encoder's fixed
+	// scratch areas: nested arrays and maps with at least two entries at every depth, both source formats
+	maxD := 40
+	if tier == "thorough" {
+		maxD = 140
+	}
+	for _, ind := range [][2]string{{"0a", "09"}, {"0a", "2020"}, {"0a", "20202020"}, {"0d0a", strings.Repeat("20", 31)}, {"0a", strings.Repeat("09", 70)}} {
+		for d := 1; d <= maxD; d++ {
+			if len(ind[1]) > 20 && d > 6 {
+				break
+			}
+			ja := strings.Repeat("[0,", d) + "1,2" + strings.Repeat(",3]", d)
+			jm := strings.Repeat(`{"a":0,"k":`, d) + `{"x":1,"y":2}` + strings.Repeat(`,"z":[]}`, d)
+			emit("pump json json %s %s %s", ind[0], ind[1], hex.EncodeToString([]byte(ja)))
+			emit("pump json json %s %s %s", ind[0], ind[1], hex.EncodeToString([]byte(jm)))
+			ca := strings.Repeat("8300", d) + "820102" + strings.Repeat("03", d)
+			cm := strings.Repeat("a3616100616b", d) + "a2617801617902" + strings.Repeat("617a80", d)
+			emit("pump cbor json %s %s %s", ind[0], ind[1], ca)
+			emit("pump cbor json %s %s %s", ind[0], ind[1], cm)
 		}
 	}
 }
@@ -357,6 +449,71 @@ func genStore(tier string, seed uint64) {
 		emit("unmarshal 1 %d i-9223372036854775808", tid(t))
 		emit("unmarshal 1 %d f3ff8000000000000", tid(t))
 		emit("unmarshal 1 %d f7ff8000000000001", tid(t))
+	}
+	// integers into struct FIELDS of narrow kinds, under an autogenerated mapping (1) and under a hand-written one whose
+	// entries declare wider types than the fields have (3): the check goes by the field
+	nt := tid(reflect.TypeOf(Narrow{}))
+	for _, aid := range []int{1, 3} {
+		for _, key := range []string{"61", "62", "63", "64"} {
+			for k := uint(6); k < 64; k++ {
+				for _, d := range []int64{-1, 0, 1} {
+					u := uint64(1)<<k + uint64(d)
+					emit("unmarshal %d %d {1,s%s,u%d,}", aid, nt, key, u)
+					emit("unmarshal %d %d {1,s%s,i%d,}", aid, nt, key, int64(u))
+					emit("unmarshal %d %d {-1,s%s,i%d,}", aid, nt, key, -int64(u))
+				}
+			}
+			for _, v := range []int{300, 256, 255, -129, -128, 44, 70000} {
+				emit("unmarshal %d %d {2,s%s,i%d,s%s,i%d,}", aid, nt, key, v, key, v+1)
+			}
+		}
+	}
+}
+
+// C09 through Clone: integers of every kind cloned into variables of every other kind (top level, by value and by
+// pointer, and inside slices)
+func genNumClone(tier string, seed uint64) {
+	emitDefs()
+	var ts []reflect.Type
+	for _, v := range []interface{}{int8(0), uint8(0), int16(0), uint16(0), int32(0), uint32(0), int64(0), uint64(0), int(0), uint(0), uintptr(0),
+		MyI8(0), MyU16(0), float64(0)} {
+		ts = append(ts, reflect.TypeOf(v))
+	}
+	ts = append(ts, reflect.TypeOf((*interface{})(nil)).Elem())
+	for _, st := range ts {
+		var vals []string
+		switch st.Kind() {
+		case reflect.Float64, reflect.Interface:
+			continue
+		case reflect.Int, reflect.Int8, reflect.Int16, reflect.Int32, reflect.Int64:
+			bits := uint(st.Bits())
+			for _, v := range []int64{0, 1, -1, 100, -100, 127, 128, -128, -129, 255, 256, 32767, -32768, 65535, 65536, 1<<31 - 1, -(1 << 31), 1 << 31, 1<<32 - 1, 1<<63 - 1, -(1 << 63)} {
+				if bits == 64 || (v >= -(1<<(bits-1)) && v <= 1<<(bits-1)-1) {
+					vals = append(vals, fmt.Sprintf("i%d", v))
+				}
+			}
+		default:
+			bits := uint(st.Bits())
+			for _, v := range []uint64{0, 1, 100, 127, 128, 255, 256, 32767, 32768, 65535, 65536, 1<<31 - 1, 1 << 31, 1<<32 - 1, 1 << 32, 1<<63 - 1, 1 << 63, 1<<64 - 1} {
+				if bits == 64 || v <= 1<<bits-1 {
+					vals = append(vals, fmt.Sprintf("u%d", v))
+				}
+			}
+		}
+		for _, dt := range ts {
+			for _, v := range vals {
+				for _, aid := range []int{0, 1} {
+					emit("clonex %d %d %d %s", aid, tid(st), tid(dt), v)
+				}
+			}
+		}
+	}
+	i64s, u64s := tid(reflect.TypeOf([]int64{})), tid(reflect.TypeOf([]uint64{}))
+	for _, v := range []string{"[i-1]", "[i0,i-1]", "[i9223372036854775807,i-9223372036854775808]", "[i5]", "[]"} {
+		emit("clonex 1 %d %d %s", i64s, u64s, v)
+	}
+	for _, v := range []string{"[u18446744073709551615]", "[u0,u9223372036854775808]", "[u9223372036854775807]", "[u5]", "[]"} {
+		emit("clonex 1 %d %d %s", u64s, i64s, v)
 	}
 }
 
@@ -410,6 +567,29 @@ func genNumBytes(tier string, seed uint64) {
 		}
 	}
 	genNumTagged()
+	// integers side by side (one token slot is reused for all of them): every ordered pair / some triples of boundary
+	// values of both signs, into untyped and typed element slots
+	var items []string
+	for _, n := range []uint64{0, 1, 23, 255, 1<<63 - 1, 1 << 63, 1<<64 - 1} {
+		for _, major := range []byte{0x00, 0x20} {
+			items = append(items, fmt.Sprintf("%x", headBytes(major, n, 0)))
+		}
+	}
+	for _, v := range []interface{}{[]interface{}{}, []int64{}, []uint64{}, map[string]interface{}{}} {
+		t := reflect.TypeOf(v)
+		for _, a := range items {
+			for _, b := range items {
+				if t.Kind() == reflect.Map {
+					emit("unmbytes cbor 1 %d a26161%s6162%s", tid(t), a, b)
+					continue
+				}
+				emit("unmbytes cbor 1 %d 82%s%s", tid(t), a, b)
+				emit("unmbytes cbor 1 %d 83%sf5%s", tid(t), a, b)
+				emit("unmbytes cbor 1 %d 83%s%s%s", tid(t), a, b, a)
+				emit("unmbytes cbor 1 %d 82%s81%s", tid(t), a, b)
+			}
+		}
+	}
 }
 
 // tagged integer-transform types of different widths side by side in untyped slots: each element is checked
@@ -471,7 +651,7 @@ func genOrder(tier string, seed uint64) {
 		t   reflect.Type
 	}
 	var targets []target
-	for _, aid := range []int{0, 1, 2, 3} {
+	for _, aid := range []int{0, 1, 2, 3, 6} {
 		targets = append(targets, target{aid, reflect.TypeOf(map[string]int{})}, target{aid, reflect.TypeOf(StrMap{})}, target{aid, reflect.TypeOf(map[MyStr]int{})},
 			target{aid, reflect.TypeOf(map[string]interface{}{})})
 	}
@@ -517,10 +697,17 @@ func genOrder(tier string, seed uint64) {
 			for rep := 0; rep < 3; rep++ {
 				emit("marshal %d %d 0 M{%s}", aid, tid(reflect.TypeOf(map[KeyStruct]string{})), strings.Join(parts, ","))
 			}
+			// the registered map type with the same keys (its own morphism entry)
+			var kparts []string
+			for _, i := range p {
+				k := ks[int(i[0]-'0')]
+				kparts = append(kparts, fmt.Sprintf("S(s%x,s%x)=i%s", k[0], k[1], i))
+			}
+			emit("marshal %d %d 0 M{%s}", aid, tid(reflect.TypeOf(KeyedMap{})), strings.Join(kparts, ","))
 		})
 	}
 	// a named map type with its own morphism next to a plain map in one struct: each map follows its own configuration
-	for _, aid := range []int{1, 2, 3} {
+	for _, aid := range []int{1, 2, 3, 6} {
 		for _, ks := range keySets {
 			m := func(rot int) string {
 				var parts []string
@@ -751,6 +938,36 @@ func genHist(tier string, seed uint64) {
 			{"[1,true]", "tru"}, {"{\"a\":false}", "f"}, {"[null]", "nu"}, {"[true,false]", "fa"}, {"\"abc\"", "\"ab"}, {"123", "-"}, {"1.5e3", "1.5e"}} {
 			emit("hist json U|1|%d|%x0a;U|1|%d|%x", ifaceT, c[0], ifaceT, c[1])
 			emit("hist json U|1|%d|%x0a;U|1|%d|%x;U|1|%d|%x0a", ifaceT, c[0], ifaceT, c[1], ifaceT, c[0])
+		}
+	}
+	// byte strings and strings in the indefinite-length (chunked) spelling, item after item on one Unmarshaller: what an
+	// earlier call returned must not change when a later call assembles its own chunks
+	{
+		ifaceT := tid(reflect.TypeOf((*interface{})(nil)).Elem())
+		bytesT := tid(reflect.TypeOf([]byte{}))
+		strT := tid(reflect.TypeOf(""))
+		arrT := tid(reflect.TypeOf([2][]byte{}))
+		chunked := func(major byte, parts ...string) string {
+			b := []byte{major | 0x1f}
+			for _, p := range parts {
+				b = append(append(b, headBytes(major, uint64(len(p)), 0)...), p...)
+			}
+			return hex.EncodeToString(append(b, 0xff))
+		}
+		docs := [][]string{{"first-item"}, {"2nd", "-it", "em"}, {"a"}, {}, {"0123456789abcdef", "0123456789abcdefXYZ"}, {"zz", "", "y"}}
+		for i := range docs {
+			for j := range docs {
+				if i == j {
+					continue
+				}
+				k := (i + j) % len(docs)
+				for _, tt := range []int{bytesT, ifaceT} {
+					emit("hist cbor U|1|%d|%s;U|1|%d|%s;U|1|%d|%s", tt, chunked(0x40, docs[i]...), tt, chunked(0x40, docs[j]...), tt, chunked(0x40, docs[k]...))
+				}
+				emit("hist cbor U|1|%d|%s;U|1|%d|%s;U|1|%d|%s", strT, chunked(0x60, docs[i]...), ifaceT, chunked(0x60, docs[j]...), strT, chunked(0x60, docs[k]...))
+				emit("hist cbor U|1|%d|82%s%s;U|1|%d|82%s%s", arrT, chunked(0x40, docs[i]...), chunked(0x40, docs[j]...), arrT, chunked(0x40, docs[k]...), chunked(0x40, docs[i]...))
+				emit("hist cbor U|1|%d|%s;U|1|%d|%x%s;U|1|%d|%x%s", bytesT, chunked(0x40, docs[i]...), bytesT, headBytes(0x40, uint64(len(docs[j])*3), 0), strings.Repeat("414243", len(docs[j])), ifaceT, headBytes(0x40, 10, 0), "30313233343536373839")
+			}
 		}
 	}
 	nf := 400
